@@ -690,11 +690,18 @@ def run_after_plan(ctx):
     """(cfg, [(cfg_prev, what_differs)]) - everything random drawn in the main thread"""
     cfg = c12_config(ctx.rng, ctx.pick(45, 70), 4, 1, four=ctx.rng.choice(["three", False]))
     out, seen = [], set()
-    for _ in range(60):
-        if len(out) >= ctx.pick(1, 4):
+    want = ctx.pick(2, 5)
+    # one variant whose PERIOD differs (the kind of history a narrowed generator-cache key gets wrong), the others of
+    # pairwise different kinds
+    for _ in range(200):
+        if len(out) >= want:
             break
         prev, what = W.prev_variant(cfg, ctx.rng)
-        if what in seen or (ctx.quick and what in SEEDS_REDRAWN):
+        if what in seen:
+            continue
+        if not out and what not in SEEDS_REDRAWN:
+            continue
+        if out and what in SEEDS_REDRAWN and any(w in SEEDS_REDRAWN for _, w in out) and ctx.quick:
             continue
         seen.add(what)
         out.append((prev, what))
@@ -1108,7 +1115,7 @@ def run(ctx):
     for i, (ndays, n_sites, n_sims, four, keep_all, start, wide) in enumerate(config_plan(ctx)):
         cfg = c12_config(ctx.rng, ndays, n_sites, n_sims, four, keep_all, start, wide)
         todo.append((f"cfg{i}", cfg, make_plan(ctx, cfg), core.Ctx(ctx.prop, ctx.tier, ctx.seed)))
-    with ThreadPoolExecutor(max_workers=ctx.pick(4, 3)) as cex, ThreadPoolExecutor(max_workers=1) as hex_:
+    with ThreadPoolExecutor(max_workers=ctx.pick(4, 3)) as cex, ThreadPoolExecutor(max_workers=2) as hex_:
         hist_jobs = [hex_.submit(history_run, a, b, repo) for a, b in hist_cfgs]
         ra_job = hex_.submit(run_after_run, ra_cfg, ra_variants, repo)
         jobs = [cex.submit(differential, sub, cfg, tables, repo, lab, planned) for (lab, cfg, planned, sub) in todo]
